@@ -21,14 +21,14 @@ RULE = ('rows = (rule set over names {a,b,default} each absent/@/!/role:x/role:y
         'not defined in the rule set (the fallback decides); distinct = distinct row. Stratum `mutation`: the same table re-checked after the '
         'rule set of a living enforcer changed (merge without overwrite, direct store update, item assignment / deletion, overwrite, '
         'file reload in non-overwrite mode), against the CURRENT rule set. Stratum `registered`: a registered default that no file mentions stays '
-        'defined (never decided by the default rule) through histories of policy.d edits, deletions and forced reloads, with and without a main file. A third of the table rows run with the debug logging of the library switched on. Stratum `reload`: a name defined in the main policy file (and an unknown name with a usable default) decided while the enforce call of another thread re-reads the rewritten main file in which those definitions stand unchanged (reloader pre-empted at sampled line boundaries). Stratum `overlap`: two decisions on one enforcer at the same time (second one runs at sampled line boundaries of the first, deterministic scheduler), each decided as the table says.')
+        'defined (never decided by the default rule) through histories of policy.d edits, deletions and forced reloads, with and without a main file. Stratum `policy_dirs`: two and three configured policy directories (each one existing with two files, existing and empty, or missing on disk), every directory with files defining a name of its own (deny / role-dependent / null) plus its own body for a shared name, the default rule permissive and defined in the main file, in one of the directories, or configured as a check object / constructor name / option (and one unusable default), with and without a main file; after the first load and after every step of a short history (a directory file rewritten or added, a file deleted, a forced reload, the main file rewritten or created) every name is decided by the reference function applied to the rule set the CURRENT files define (main file, then the existing directories in configured order, files of a directory in sorted order, later definitions replacing earlier ones). A third of the table rows run with the debug logging of the library switched on. Stratum `reload`: a name defined in the main policy file (and an unknown name with a usable default) decided while the enforce call of another thread re-reads the rewritten main file in which those definitions stand unchanged (reloader pre-empted at sampled line boundaries). Stratum `overlap`: two decisions on one enforcer at the same time (second one runs at sampled line boundaries of the first, deterministic scheduler), each decided as the table says.')
 ASSUMPTIONS = ['rule bodies contain no rule: references (reference cycles through the default are C06/C13 territory)',
                'role:x / role:y / @ / ! leaves evaluate as C01/C04 state']
 LEVEL_TEXT = ('The complete decision table of the statement (about 1.3e5 rows) is driven through the real enforcer and '
               'compared row by row; a finite quantifier, so enumeration is the right level.')
 LEVEL_NOTE = 'trusted: the 12-line reference function; the name/role universe is small by design'
 PLAN = {'quick': dict(shards=4, wall=120), 'thorough': dict(shards=8, wall=300)}
-MIN = {'overlapping_evaluations': 200, 'decisions_during_reload': 100, 'configs_under_debug_logging': 100, 'registered_decisions': 2000, 'mutation_decisions': 20000, 'evaluations': 10000, 'fallback_rows': 2000, 'allow_decisions': 1000, 'deny_decisions': 1000}
+MIN = {'policy_dirs_decisions': 8000, 'policy_dirs_decisions_name_only_in_earlier_directory': 400, 'overlapping_evaluations': 200, 'decisions_during_reload': 100, 'configs_under_debug_logging': 100, 'registered_decisions': 2000, 'mutation_decisions': 20000, 'evaluations': 10000, 'fallback_rows': 2000, 'allow_decisions': 1000, 'deny_decisions': 1000}
 ANCHORS = ['oslo_policy.policy:Rules.__missing__', 'oslo_policy.policy:Enforcer.enforce',
            'oslo_policy.policy:Enforcer.set_rules', 'oslo_policy.policy:Rules.__init__']
 REQUIRED_ANCHORS = ['oslo_policy.policy:Enforcer.enforce']
@@ -305,6 +305,176 @@ def check_registered(ctx, case):
         tree.cleanup()
 
 
+# ---- several configured policy directories ------------------------------------
+# one letter per configured directory: F = exists and holds two files, E = exists and is empty, M = missing on disk
+PD_LAYOUTS = ['FF', 'FM', 'MF', 'FE', 'EF', 'FFF', 'FMF', 'FFM', 'MFF', 'FEF', 'FFE', 'EFF', 'EFM']
+# (default-rule configuration, name of the default rule, its body, where that name is defined)
+PD_DEFAULTS = [('unset', 'default', '@', 'main'), ('unset', 'default', '@', 'dir'), ('obj_true', None, None, None),
+               ('ctor_other', 'b', '@', 'dir'), ('opt_b', 'b', '@', 'main'), ('obj_role', None, None, None),
+               ('ctor_default', 'default', 'role:x', 'dir'), ('ctor_ghost', None, None, None)]
+PD_STEPS = [[], ['edit'], ['force'], ['edit', 'force'], ['delete'], ['edit', 'delete'], ['force', 'edit', 'force'],
+            ['edit-main', 'edit'], ['delete', 'edit']]
+PD_QUERIES = ['n0', 'n1', 'n2', 'a', 'b', 'c', 'm', 'default', 'ghost']
+PD_REPS = {'quick': 1, 'thorough': 6}
+
+
+def default_kwargs(dcfg):
+    """(constructor keywords, option overrides) of one default-rule configuration - the same mapping as in build()."""
+    from oslo_policy import _checks
+    kw, overrides = {}, {}
+    if dcfg == 'ctor_default':
+        kw['default_rule'] = 'default'
+    elif dcfg == 'ctor_other':
+        kw['default_rule'] = 'b'
+    elif dcfg == 'ctor_ghost':
+        kw['default_rule'] = 'ghost'
+    elif dcfg == 'obj_true':
+        kw['default_rule'] = _checks.TrueCheck()
+    elif dcfg == 'obj_false':
+        kw['default_rule'] = _checks.FalseCheck()
+    elif dcfg == 'obj_role':
+        kw['default_rule'] = _checks.RoleCheck('role', 'x')
+    elif dcfg == 'opt_b':
+        overrides['policy_default_rule'] = 'b'
+    elif dcfg == 'opt_empty':
+        overrides['policy_default_rule'] = ''
+    return kw, overrides
+
+
+def pd_fold(main, dirs):
+    """The rule set the CURRENT files define: the main file, then every existing directory in configured order, the
+    files of a directory in sorted order; a later definition of a name replaces an earlier one."""
+    eff = dict(main or {})
+    for d in dirs:
+        if d is not None:
+            for fn in sorted(d):
+                eff.update(d[fn])
+    return eff
+
+
+def gen_policy_dirs(layout, dopt, steps, r):
+    """One configuration with two or three configured policy directories plus a short history, as a replayable dict.
+    Every directory with files defines a name of its own (n<i>: deny / role-dependent / null) that nothing else in a
+    directory defines, and its own body for the shared name `a`."""
+    dcfg, dname, dbody, place = dopt
+    rot = r.randrange(12)
+    fdirs = [i for i, s in enumerate(layout) if s == 'F']
+    existing = [i for i, s in enumerate(layout) if s != 'M']
+    dirs = []
+    for i, s in enumerate(layout):
+        if s == 'M':
+            dirs.append(None)
+        elif s == 'E':
+            dirs.append({})
+        else:
+            dirs.append({'a.yaml': {'n%d' % i: ['!', 'role:y', 'NULL', 'role:x'][(i + rot) % 4]},
+                         'b.yaml': {'a': ['!', 'role:x', '@', 'role:y'][(i + rot) % 4]}})
+    main = None
+    if place == 'main':
+        main = {dname: dbody, 'm': 'role:y'}
+    elif r.random() < 0.5:
+        main = {'m': r.choice(['role:y', '!'])}
+    if main is not None and r.random() < 0.3:
+        main['n%d' % r.choice(fdirs)] = '@'          # also defined in the main file: the directory's definition counts
+    if place == 'dir':
+        dirs[r.choice(fdirs)][r.choice(['a.yaml', 'b.yaml'])][dname] = dbody
+    cur = [None if d is None else {fn: dict(m) for fn, m in d.items()} for d in dirs]
+    cur_main = None if main is None else dict(main)
+    ops = []
+    for s in steps:
+        if s == 'force':
+            ops.append(['force'])
+        elif s == 'edit':
+            i = r.choice(existing)
+            new = dict(cur[i].get('b.yaml', {}), a=r.choice(['!', 'role:x', 'role:y', '@']), c=r.choice(['!', 'role:y']))
+            cur[i]['b.yaml'] = new
+            ops.append(['write', i, 'b.yaml', new])
+        elif s == 'delete':
+            cands = [[i, fn] for i in existing for fn in sorted(cur[i])]
+            if cands:
+                i, fn = r.choice(cands)
+                del cur[i][fn]
+                ops.append(['delete', i, fn])
+        elif s == 'edit-main':
+            cur_main = dict(cur_main or {}, c=r.choice(['role:x', '@']))       # (a main file may also appear only now)
+            ops.append(['write-main', cur_main])
+    return dict(policy_dirs=True, layout=layout, main=main, dirs=dirs, dcfg=dcfg, ops=ops)
+
+
+def check_policy_dirs(ctx, case):
+    """Two or three configured policy directories (some missing on disk, some empty), with and without a main file: after
+    the first load and after every step of a short history (a directory file rewritten or added, a file deleted, a forced
+    reload, the main file rewritten) every queried name is decided as the statement says for the rule set the CURRENT files
+    define - a name defined in any of the directories by its own definition, never by the (usually permissive) default."""
+    from oslo_policy import policy
+    dcfg = case['dcfg']
+    tree = files.Tree(dirs=())
+    try:
+        names = ['pd%d' % i for i in range(len(case['dirs']))]
+        cur_dirs = []
+        for nm, d in zip(names, case['dirs']):
+            if d is None:
+                cur_dirs.append(None)
+                continue
+            tree.mkdir(nm)
+            cur_dirs.append({})
+            for fn in sorted(d):
+                tree.write(nm + '/' + fn, materialise(d[fn]), 'json')
+                cur_dirs[-1][fn] = dict(d[fn])
+        cur_main = None
+        if case['main'] is not None:
+            cur_main = dict(case['main'])
+            tree.write(os.path.basename(tree.main), materialise(cur_main), 'json')
+        kw, overrides = default_kwargs(dcfg)
+        enf = policy.Enforcer(tree.conf(policy_dirs=[tree.path(nm) for nm in names], **overrides), **kw)
+        ctx.case(case, nontrivial=True, stratum='policy_dirs')
+        for op in [['load']] + [list(o) for o in case['ops']]:
+            if op[0] == 'write':
+                cur_dirs[op[1]][op[2]] = dict(op[3])
+                tree.write(names[op[1]] + '/' + op[2], materialise(op[3]), 'json')
+            elif op[0] == 'delete':
+                del cur_dirs[op[1]][op[2]]
+                tree.delete(names[op[1]] + '/' + op[2])
+            elif op[0] == 'write-main':
+                cur_main = dict(op[1])
+                tree.write(os.path.basename(tree.main), materialise(cur_main), 'json')
+            elif op[0] == 'force':
+                enf.load_rules(force_reload=True)
+            eff = pd_fold(cur_main, cur_dirs)
+            live = [i for i, d in enumerate(cur_dirs) if d is not None]
+            for q in PD_QUERIES:
+                homes = [i for i in live if any(q in m for m in cur_dirs[i].values())]
+                for roles in CREDS:
+                    want = reference(eff, dcfg, q, roles)
+                    try:
+                        got = bool(enf.enforce(q, {}, {'roles': list(roles)}))
+                    except Exception as e:
+                        got = 'EXC:' + type(e).__name__
+                    ctx.count('policy_dirs_decisions')
+                    if len(homes) == 1 and homes[0] != live[-1]:
+                        ctx.count('policy_dirs_decisions_name_only_in_earlier_directory')
+                    if got != want:
+                        if isinstance(got, str):
+                            key = 'unknown-name-raises' if q not in eff else 'defined-name-raises'
+                        elif not eff:
+                            key = 'empty-ruleset-allows'
+                        elif q in eff:
+                            key = 'defined-name-decided-by-something-else'
+                        elif want is False:
+                            key = 'unusable-default-allows'
+                        else:
+                            key = 'usable-default-not-applied'
+                        ctx.violation(key, case, {'after_step': op, 'configured_directories': case['layout'],
+                                                  'current_main_file': cur_main, 'current_directories': cur_dirs,
+                                                  'effective_rules': eff, 'default_config': dcfg, 'queried': q,
+                                                  'defined_in_directories': homes, 'roles': roles,
+                                                  'expected': want, 'observed': got})
+                        return
+        ctx.observe('policy_dir_layouts', '%s/%s/%s' % (case['layout'], dcfg, 'main' if case['main'] is not None else 'no-main'))
+    finally:
+        tree.cleanup()
+
+
 def check_overlap(ctx, case):
     """Two decisions on one enforcer at the same time (an unknown name falling back to the default rule while a defined
     name is decided, two different unknown names, ...): each is decided as the table says, as if it ran alone."""
@@ -466,6 +636,19 @@ def run(ctx):
                         if ctx.mine(ridx):
                             check_registered(ctx, dict(registered=True, main=main, dir0=dir0, dir1=dir1, reg=reg, steps=steps))
     ctx.stratum('registered', exhaustive=True)
+    # ---- two and three configured policy directories under file histories ----------
+    pidx = 0
+    for li, layout in enumerate(PD_LAYOUTS):
+        for di, dopt in enumerate(PD_DEFAULTS):
+            for si, steps in enumerate(PD_STEPS):
+                if ctx.tier == 'quick' and (li + di + si) % 2:
+                    continue                    # quick: half of the (layout, default, history) combinations; thorough: all, 6 variants each
+                for rep in range(PD_REPS[ctx.tier]):
+                    pidx += 1
+                    if ctx.mine(pidx):
+                        check_policy_dirs(ctx, gen_policy_dirs(layout, dopt, steps, ctx.sub_rnd('PD', ctx.tier, li, di, si, rep)))
+    ctx.stratum('policy_dirs', exhaustive=False)
+    ctx.sample(gen_policy_dirs('FMF', PD_DEFAULTS[1], ['edit', 'delete'], ctx.sub_rnd('PD', 'sample')), 'policy_dirs')
     ctx.sample(dict(rules={'a': 'role:x', 'default': '@'}, dcfg='unset', mutation='merge-set_rules', change={'default': '!'}), 'mutation')
     # ---- two overlapping decisions, last (the line-level scheduler slows everything that runs after it is installed)
     from pv.mon import sched
@@ -501,4 +684,6 @@ def replay(ctx, case):
         return check_mutation(ctx, case)
     if case.get('registered'):
         return check_registered(ctx, case)
+    if case.get('policy_dirs'):
+        return check_policy_dirs(ctx, case)
     check_config(ctx, case['rules'], case['dcfg'], case['via'], bool(case.get('debug')))
